@@ -15,7 +15,7 @@ Generic in the scalar type:
   (`markEdgeLoop_no_shared_segment_panic`), so that panic is unreachable from `from_polygon`.
 * `refine_ok_*` (C18) — when `refine` returns `Ok` the mesh is at a fixpoint with every slot live.
 Not proved: termination of `refine` (Rust recursion; the model carries explicit fuel and the harness a watchdog), and the
-absence of the remaining `unwrap`s' panics (`get_closed_loop`'s pushes: known finding C09-bridge-unwrap). These are decided
+absence of panics in the remaining callees of the ear loop (`is_diagonal`'s `test_point(..).unwrap()`). These are decided
 on every run by the bit-exact differential run plus the C09 oracle (panic / runaway / well-conditioned-must-succeed).
 -/
 namespace G3d.C09
@@ -69,8 +69,8 @@ theorem sanitize_noPanic (l : Loop α) : NoPanic l.sanitize := by
     · exact noPanic_ok _
 
 /-- merging the holes of a polygon without holes cannot fail -/
-theorem getClosedLoop_no_holes_ok (pg : Polygon α) (h : pg.inner = []) : ∃ l, pg.getClosedLoop = .ok l :=
-  ⟨_, C12.getClosedLoop_no_holes pg h⟩
+theorem getClosedLoop_no_holes_ok (pg : Polygon α) (h : pg.inner = []) : ∃ l, pg.tryGetClosedLoop = .ok l :=
+  ⟨_, (C12.getClosedLoop_no_holes pg h).1⟩
 
 theorem fromI_asI (e : Edge) : Edge.fromI e.asI = .ok e := by cases e <;> rfl
 
